@@ -301,8 +301,8 @@ def run_solver(cfg, fault=None, num_iter=None, form="info", env=None) -> RunResu
     wmod.time = clock
     if env.get("tracemalloc", "stub") == "stub":
         wmod.tracemalloc = TraceStub()
-    if "np_seed" in env:
-        np.random.seed(env["np_seed"] % 2**32)
+    # RNG seam: pyamg's set-up reads numpy's global RNG; the simulator always decides its state
+    np.random.seed(env.get("np_seed", 20221012) % 2**32)
     try:
         obj = build(cfg, num_iter, form)
         seam = SolveSeam(obj, None)
@@ -312,11 +312,14 @@ def run_solver(cfg, fault=None, num_iter=None, form="info", env=None) -> RunResu
             if cfg.get("warm"):
                 # history on the SAME object: an earlier, fault-free distance computation for another pair
                 wa, wb = mass_pair({**cfg, "pair": cfg["warm"]})
+                if cfg["warm"].get("interrupt") is not None:
+                    # ... which was interrupted (KeyboardInterrupt escapes every handler) at its k-th inner solve
+                    seam.reset({"site": "entry", "occurrence": cfg["warm"]["interrupt"], "exc": "KeyboardInterrupt"})
                 with warnings.catch_warnings():
                     warnings.simplefilter("ignore")
                     try:
                         obj(make_image(wa, cfg), make_image(wb, cfg))
-                    except Exception:
+                    except (Exception, KeyboardInterrupt):
                         pass
             seam.reset(fault)
             a, b = mass_pair(cfg)
@@ -534,7 +537,9 @@ class C04Engine(Engine):
                 shape[r.randint(0, 2)] = 2
         cfg = {
             "method": method, "formulation": formulation, "linear_solver": ls,
-            "shape": shape, "voxel_size": [r.choice([0.25, 0.5, 1.0, 1.0, 1.5, 2.0]) for _ in range(dim)],
+            "shape": shape, "voxel_size": [r.choice([0.25, 0.5, 1.0, 1.0, 1.5, 2.0]) for _ in range(dim)]
+            if r.random() < 0.85 else ([r.choice([1e-5, 5e-5, 1e-4, 1e-3]) for _ in range(dim)] if r.random() < 0.7
+                                       else [r.choice([50.0, 1e3]) for _ in range(dim)]),
             "l1_mode": r.choice(sorted(L1)), "mobility_mode": r.choice(MOB),
             "num_iter": r.randint(1, 10 if big else 7),
             "aa_depth": r.choice([0, 0, 1, 2, 3]), "aa_restart": r.choice([None, None, 2, 3, 4]),
@@ -546,6 +551,8 @@ class C04Engine(Engine):
             cfg["verbose"] = True
         if r.random() < 0.3:
             cfg["warm"] = {"kind": r.choice(["dense", "compact"]), "id": r.randint(0, 9999)}
+            if r.random() < 0.4:
+                cfg["warm"]["interrupt"] = r.randint(1, 4)
         if cfg["aa_depth"] == 0:
             cfg["aa_restart"] = None
         if r.random() < 0.4:
@@ -575,6 +582,14 @@ class C04Engine(Engine):
             for k in ("tol_residual", "tol_increment"):
                 if cfg[k] is None:
                     cfg.pop(k)
+        if 36 <= i < 48 or substream(seed, "profile2").random() < 0.03:
+            # SI-units profile: a millimetre-sized sample with coordinates in metres (voxel volumes ~1e-9) and a penalty
+            # parameter different from its default
+            cfg["voxel_size"] = [r.choice([1e-5, 5e-5, 1e-4]) for _ in range(dim)]
+            cfg["L"] = r.choice([0.1, 0.5, 2.0, 10.0])
+            if method == "bregman-adaptive" and r.random() < 0.5:
+                cfg["method"] = "bregman"
+                cfg.pop("update_every", None)
         e = substream(seed, "env")
         env = {"tracemalloc": "real" if e.random() < 0.1 else "stub", "np_seed": e.randint(0, 2**31)}
         if e.random() < 0.5:
